@@ -251,10 +251,33 @@ func runC14() *RunResult {
 			var pn [nFuncs]uint64
 			c := free.calls[rn(n)]
 			pn[c.Func] = 1 << uint(rn(4))
+			// if the library chose to absorb the panic, the only defensible reading is "that
+			// call failed": the model with exactly that call failing
+			var asFault [nFuncs]uint64
+			asFault[c.Func] = pn[c.Func]
+			expFail := modelFunctions(V, p.SingleValued, fl, asFault, cfg.Variant)
 			o := &Op{Kind: opCustom, Path: p, Cfg: cfg, Panics: pn}
 			o.Do = func(t *Task, o *Op) {
-				_, o.Got = safeCall(shared.Fn, deepCopy(doc.Val))
-				o.GotLog = perFuncLog(t.rec.Calls)
+				res, out := safeCall(shared.Fn, deepCopy(doc.Val))
+				o.Got, o.GotLog = out, perFuncLog(t.rec.Calls)
+				if simrt.Aborted() != 0 || t.rec.Panicked == 0 {
+					return
+				}
+				// the user function panicked.  Either the panic reaches the caller, or the
+				// call counts as failed; a value that no call returned must never show up
+				if strings.HasPrefix(out, "PANIC<main.plannedPanic") {
+					return
+				}
+				t.judged++
+				ok := false
+				if expFail.result != "" {
+					ok = res != nil && canon(plainView(res)) == expFail.result
+				} else {
+					ok = res == nil && strings.HasPrefix(out, "ERR<jsonpath.Error")
+				}
+				if !ok {
+					t.fail("C14:panicking-function-treated-as-a-successful-call", p.Text, fmt.Sprintf("%v\n  the user function panicked in one call; got %s\n  acceptable: the panic reaches the caller, or the call counts as failed: %s%s", o, clip(out, 300), expFail.result, expFail.errType))
+				}
 			}
 			w.tasks[ti].ops = append(w.tasks[ti].ops, o)
 		}
